@@ -285,12 +285,12 @@ Proof.
 Qed.
 
 Lemma step_sim disk h l l' o d' h' r c' s' r' :
-  Inv disk h -> (is_LWrite l = false -> pending h = []) ->
+  Inv disk h -> (l = LNone -> pending h = []) ->
   disc1_step l o = Some l' ->
   istep ch disk h o = (d', h', r) ->
   sstep true (abs_content disk h) (abs_h disk h) o = (c', s', r') ->
   r' <> RUnsupported ->
-  Inv d' h' /\ (is_LWrite l' = false -> pending h' = []) /\
+  Inv d' h' /\ (l' = LNone -> pending h' = []) /\
   c' = abs_content d' h' /\ s' = abs_h d' h' /\ r = r'.
 Proof.
   intros IV LP D EI ES NU. pose proof IV as (I & NR & PB & NW & CL).
@@ -302,72 +302,84 @@ Proof.
     split; [exact IV|]. split; [intros _; exact P0|]. split; [reflexivity|]. split; [reflexivity|reflexivity]. }
   destruct o as [fs|k|k|ss|w off| |m size|]; cbn [s_rd s_wr s_app s_pos abs_h] in ES.
   - (* read *)
+    cbn in D. injection D as <-.
     destruct (i_rd h) eqn:RD; cbn [negb] in EI, ES.
-    2:{ injection EI as <- <- <-. injection ES as <- <- <-. cbn in D. destruct (is_LWrite l) eqn:LW; [discriminate|].
-        injection D as <-. split; [exact IV|]. split; [intros _; apply LP; reflexivity|].
-        split; [reflexivity|]. split; [reflexivity|reflexivity]. }
-    cbn in D. destruct (is_LWrite l) eqn:LW; [discriminate|]. injection D as <-.
-    pose proof (LP eq_refl) as P0.
-    pose proof (abs_view_nopending disk h P0) as AV.
-    assert (AC : abs_content disk h = disk) by (unfold abs_content; rewrite AV; reflexivity).
-    assert (AP : abs_pos disk h = pos h) by (unfold abs_pos; rewrite AV; reflexivity).
+    2:{ injection EI as <- <- <-. injection ES as <- <- <-.
+        split; [exact IV|]. split; [discriminate|]. split; [reflexivity|]. split; reflexivity. }
+    destruct (iflush disk h) as [d1 hf] eqn:FL.
+    destruct (iflush_abs disk h d1 hf IV FL) as (AVf & P0 & IVf & G1 & G2 & G3 & G4 & G5).
+    pose proof IVf as (If & NRf & PBf & NWf & CLf).
+    pose proof (abs_view_nopending d1 hf P0) as AV.
+    assert (AC : abs_content disk h = d1) by (unfold abs_content; rewrite <- AVf, AV; reflexivity).
+    assert (AP : abs_pos disk h = pos hf) by (unfold abs_pos; rewrite <- AVf, AV; reflexivity).
     rewrite AC, AP in ES.
-    destruct (ireads ch disk h fs []) as [h1 r1] eqn:E1. injection EI as <- <- <-.
-    destruct (s_reads true disk (pos h) fs []) as [r2 p2] eqn:E2. injection ES as <- <- <-.
-    destruct (ireads_spec disk fs h [] h1 r1 r2 p2 I E1 E2 NU) as (RS & I1 & P1 & (F1 & F2 & F3 & F4 & F5)).
+    destruct (ireads ch d1 hf fs []) as [h1 r1] eqn:E1. injection EI as <- <- <-.
+    destruct (s_reads true d1 (pos hf) fs []) as [r2 p2] eqn:E2. injection ES as <- <- <-.
+    destruct (ireads_spec d1 fs hf [] h1 r1 r2 p2 If E1 E2 NU) as (-> & I1 & P1 & (F1 & F2 & F3 & F4 & F5)).
     assert (P1' : pending h1 = []) by (unfold pending in *; rewrite F1; exact P0).
-    pose proof (abs_view_nopending disk h1 P1') as AV1.
+    pose proof (abs_view_nopending d1 h1 P1') as AV1.
     split.
-    { unfold Inv. split; [exact I1|]. split; [rewrite F2, RD; discriminate|].
-      split; [rewrite P1'; congruence|]. split; [rewrite F3, F1; exact NW|]. rewrite F5, C. discriminate. }
-    split; [intros _; exact P1'|].
-    split; [unfold abs_content; rewrite AV1; reflexivity|].
-    split; [|exact RS].
-    unfold abs_h, s_setpos, abs_pos. rewrite AV1. cbn. rewrite P1, F2, F3, F4, F5, RD, C. reflexivity.
-  - (* lines *)
-    destruct (i_rd h) eqn:RD; cbn [negb] in EI, ES.
-    2:{ injection EI as <- <- <-. injection ES as <- <- <-. cbn in D. destruct (is_LWrite l) eqn:LW; [discriminate|].
-        injection D as <-. split; [exact IV|]. split; [intros _; apply LP; reflexivity|].
-        split; [reflexivity|]. split; [reflexivity|reflexivity]. }
-    cbn in D. destruct (is_LWrite l) eqn:LW; [discriminate|]. injection D as <-.
-    pose proof (LP eq_refl) as P0.
-    pose proof (abs_view_nopending disk h P0) as AV.
-    assert (AC : abs_content disk h = disk) by (unfold abs_content; rewrite AV; reflexivity).
-    assert (AP : abs_pos disk h = pos h) by (unfold abs_pos; rewrite AV; reflexivity).
-    rewrite AC, AP in ES.
-    destruct (ilines ch disk h k []) as [h1 r1] eqn:E1. injection EI as <- <- <-.
-    destruct (s_lines true disk (pos h) k []) as [l2 p2] eqn:E2. injection ES as <- <- <-.
-    destruct (ilines_spec disk k h [] h1 r1 l2 p2 I E1 E2) as (-> & I1 & P1 & (F1 & F2 & F3 & F4 & F5)).
-    assert (P1' : pending h1 = []) by (unfold pending in *; rewrite F1; exact P0).
-    pose proof (abs_view_nopending disk h1 P1') as AV1.
-    split.
-    { unfold Inv. split; [exact I1|]. split; [rewrite F2, RD; discriminate|].
-      split; [rewrite P1'; congruence|]. split; [rewrite F3, F1; exact NW|]. rewrite F5, C. discriminate. }
-    split; [intros _; exact P1'|].
+    { unfold Inv. split; [exact I1|]. split; [rewrite F2, G1, RD; discriminate|].
+      split; [rewrite P1'; congruence|]. split; [rewrite F3, F1; exact NWf|]. rewrite F5, G4, C. discriminate. }
+    split; [discriminate|].
     split; [unfold abs_content; rewrite AV1; reflexivity|].
     split; [|reflexivity].
-    unfold abs_h, s_setpos, abs_pos. rewrite AV1. cbn. rewrite P1, F2, F3, F4, F5, RD, C. reflexivity.
+    unfold abs_h, s_setpos, abs_pos. rewrite AV1. cbn. rewrite P1, F2, F3, F4, F5, G1, G2, G3, G4, RD, C. reflexivity.
+  - (* lines *)
+    cbn in D. injection D as <-.
+    destruct (i_rd h) eqn:RD; cbn [negb] in EI, ES.
+    2:{ injection EI as <- <- <-. injection ES as <- <- <-.
+        split; [exact IV|]. split; [discriminate|]. split; [reflexivity|]. split; reflexivity. }
+    destruct k as [|k'].
+    { injection EI as <- <- <-. cbn in ES. injection ES as <- <- <-.
+      split; [exact IV|]. split; [discriminate|]. split; [reflexivity|]. split; reflexivity. }
+    cbv beta iota in EI. set (k := S k') in *.
+    destruct (iflush disk h) as [d1 hf] eqn:FL.
+    destruct (iflush_abs disk h d1 hf IV FL) as (AVf & P0 & IVf & G1 & G2 & G3 & G4 & G5).
+    pose proof IVf as (If & NRf & PBf & NWf & CLf).
+    pose proof (abs_view_nopending d1 hf P0) as AV.
+    assert (AC : abs_content disk h = d1) by (unfold abs_content; rewrite <- AVf, AV; reflexivity).
+    assert (AP : abs_pos disk h = pos hf) by (unfold abs_pos; rewrite <- AVf, AV; reflexivity).
+    rewrite AC, AP in ES.
+    destruct (ilines ch d1 hf k []) as [h1 r1] eqn:E1. injection EI as <- <- <-.
+    destruct (s_lines true d1 (pos hf) k []) as [r2 p2] eqn:E2. injection ES as <- <- <-.
+    destruct (ilines_spec d1 k hf [] h1 r1 r2 p2 If E1 E2) as (-> & I1 & P1 & (F1 & F2 & F3 & F4 & F5)).
+    assert (P1' : pending h1 = []) by (unfold pending in *; rewrite F1; exact P0).
+    pose proof (abs_view_nopending d1 h1 P1') as AV1.
+    split.
+    { unfold Inv. split; [exact I1|]. split; [rewrite F2, G1, RD; discriminate|].
+      split; [rewrite P1'; congruence|]. split; [rewrite F3, F1; exact NWf|]. rewrite F5, G4, C. discriminate. }
+    split; [discriminate|].
+    split; [unfold abs_content; rewrite AV1; reflexivity|].
+    split; [|reflexivity].
+    unfold abs_h, s_setpos, abs_pos. rewrite AV1. cbn. rewrite P1, F2, F3, F4, F5, G1, G2, G3, G4, RD, C. reflexivity.
   - (* a step of an earlier iterator *)
+    cbn in D. injection D as <-.
     destruct (i_rd h) eqn:RD; cbn [negb] in EI, ES.
     2:{ injection ES as _ _ <-. congruence. }
-    cbn in D. destruct (is_LWrite l) eqn:LW; [discriminate|]. injection D as <-.
-    pose proof (LP eq_refl) as P0.
-    pose proof (abs_view_nopending disk h P0) as AV.
-    assert (AC : abs_content disk h = disk) by (unfold abs_content; rewrite AV; reflexivity).
-    assert (AP : abs_pos disk h = pos h) by (unfold abs_pos; rewrite AV; reflexivity).
+    destruct k as [|k'].
+    { injection EI as <- <- <-. cbn in ES. injection ES as <- <- <-.
+      split; [exact IV|]. split; [discriminate|]. split; [reflexivity|]. split; reflexivity. }
+    cbv beta iota in EI. set (k := S k') in *.
+    destruct (iflush disk h) as [d1 hf] eqn:FL.
+    destruct (iflush_abs disk h d1 hf IV FL) as (AVf & P0 & IVf & G1 & G2 & G3 & G4 & G5).
+    pose proof IVf as (If & NRf & PBf & NWf & CLf).
+    pose proof (abs_view_nopending d1 hf P0) as AV.
+    assert (AC : abs_content disk h = d1) by (unfold abs_content; rewrite <- AVf, AV; reflexivity).
+    assert (AP : abs_pos disk h = pos hf) by (unfold abs_pos; rewrite <- AVf, AV; reflexivity).
     rewrite AC, AP in ES.
-    destruct (ilines ch disk h k []) as [h1 r1] eqn:E1. injection EI as <- <- <-.
-    destruct (s_lines true disk (pos h) k []) as [l2 p2] eqn:E2. injection ES as <- <- <-.
-    destruct (ilines_spec disk k h [] h1 r1 l2 p2 I E1 E2) as (-> & I1 & P1 & (F1 & F2 & F3 & F4 & F5)).
+    destruct (ilines ch d1 hf k []) as [h1 r1] eqn:E1. injection EI as <- <- <-.
+    destruct (s_lines true d1 (pos hf) k []) as [r2 p2] eqn:E2. injection ES as <- <- <-.
+    destruct (ilines_spec d1 k hf [] h1 r1 r2 p2 If E1 E2) as (-> & I1 & P1 & (F1 & F2 & F3 & F4 & F5)).
     assert (P1' : pending h1 = []) by (unfold pending in *; rewrite F1; exact P0).
-    pose proof (abs_view_nopending disk h1 P1') as AV1.
+    pose proof (abs_view_nopending d1 h1 P1') as AV1.
     split.
-    { unfold Inv. split; [exact I1|]. split; [rewrite F2, RD; discriminate|].
-      split; [rewrite P1'; congruence|]. split; [rewrite F3, F1; exact NW|]. rewrite F5, C. discriminate. }
-    split; [intros _; exact P1'|].
+    { unfold Inv. split; [exact I1|]. split; [rewrite F2, G1, RD; discriminate|].
+      split; [rewrite P1'; congruence|]. split; [rewrite F3, F1; exact NWf|]. rewrite F5, G4, C. discriminate. }
+    split; [discriminate|].
     split; [unfold abs_content; rewrite AV1; reflexivity|].
     split; [|reflexivity].
-    unfold abs_h, s_setpos, abs_pos. rewrite AV1. cbn. rewrite P1, F2, F3, F4, F5, RD, C. reflexivity.
+    unfold abs_h, s_setpos, abs_pos. rewrite AV1. cbn. rewrite P1, F2, F3, F4, F5, G1, G2, G3, G4, RD, C. reflexivity.
   - (* write *)
     cbn in D. destruct (is_LRead l); [discriminate|]. injection D as <-.
     destruct (i_wr h) eqn:WR; cbn [negb] in EI, ES.
